@@ -50,7 +50,7 @@ static int cmp(const void * a, const void * b, void * p)
 {
     const struct elem * x = a, * y = b;
     const int sign = (x->key > y->key) - (x->key < y->key);
-    (void)p;
+    h_check_priv(p);
     cmp_calls++;
     if (cmpmode == 1) return x->key - y->key;
     if (cmpmode == 2) return sign * (int)(1 + (cmp_calls * 7u) % 13u);
@@ -115,7 +115,7 @@ static void run_case(const struct h_case * c)
     for (i = 0; i < c->nlines; i++)
         if (!h_weq(&c->lines[i], 0, "keys") && !h_weq(&c->lines[i], 0, "dumpevery")
             && !h_weq(&c->lines[i], 0, "cmpmode")) nops++;
-    cstl_heap_init(&heap, cmp, NULL, offsetof(struct elem, hn));
+    cstl_heap_init(&heap, cmp, H_COOKIE, offsetof(struct elem, hn));
     for (i = 0; i < c->nlines; i++) {
         const struct h_line * l = &c->lines[i];
         int a = (int)h_int(l, 1);
